@@ -16,7 +16,7 @@ EXPLANATION = (
     'variant of exactly the declared basic type; Set changes state iff writable; Get/GetAll reveal iff readable; unknown '
     'property/interface gives an error reply; GetAll returns exactly the readable properties of that interface; one '
     'PropertiesChanged signal per assignment iff the property is declared to emit.')
-BOUNDS = {'quick': '12 declarations (pairwise over 4 signatures x 3 access modes x 3 emit modes); histories of 3 steps over 16 step kinds; values from pools of 3 (boundaries, empty, multi-byte)',
+BOUNDS = {'quick': '12 declarations (pairwise over 4 signatures x 3 access modes x 3 emit modes); histories of 3 steps over 18 step kinds; values from pools of 3 (boundaries, empty, multi-byte)',
           'thorough': '36 declarations; histories of 4 steps'}
 ASSUMPTIONS = ['values come from pools of 3 per signature (selector variables): the solver contributes exhaustive coverage of the bounded history space, not arithmetic',
                'Get with an empty interface name may answer from any interface that has the property (the statement does not fix the choice)',
@@ -27,7 +27,8 @@ SIGS = ['y', 'i', 's', 'as']
 ACCESS = [(True, False), (False, True), (True, True)]      # (readable, writeable)
 EMITS = [True, False, 'invalidates']
 IA, IB, PROPS = 'org.t.PA', 'org.t.PB', 'org.freedesktop.DBus.Properties'
-NSTEPS = 16        # 0-2 assign value 0..2, 3-5 remote Set value 0..2, 6.. the other step kinds
+IC = 'org.t.P'          # IC + 'AP' and IA + 'P' concatenate to the same text
+NSTEPS = 18        # 0-2 assign value 0..2, 3-5 remote Set value 0..2, 6.. the other step kinds (16, 17: third interface)
 
 
 def _decls(tier):
@@ -68,9 +69,12 @@ def _mk_class(si, ai, ei):
                       Property('Q', 's', readable=True, writeable=False, emitsOnChange=False), noRegister=True)
     B = DBusInterface(IB, Property('P', 'i', readable=True, writeable=True, emitsOnChange=True), noRegister=True)
 
+    C = DBusInterface(IC, Property('AP', 'i', readable=True, writeable=True, emitsOnChange=False), noRegister=True)
+
     class Base(objects.DBusObject):
-        dbusInterfaces = [B]
+        dbusInterfaces = [B, C]
         pb = objects.DBusProperty('P', IB)
+        ap = objects.DBusProperty('AP', IC)
 
     class Obj(Base):
         dbusInterfaces = [A]
@@ -82,6 +86,7 @@ def _mk_class(si, ai, ei):
             # properties are assigned before the object is exported (no handler yet: nothing is emitted)
             self.p = {'y': 1, 'i': 1, 's': 'init', 'as': ['init']}[SIGS[si]]
             self.pb = 0
+            self.ap = 77
             self.q = 'qv'
 
     class Conn:
@@ -140,8 +145,11 @@ def build(family, p):
             elif s < 6:
                 steps.append(1)
                 vals.append(VPOOL[s - 3])
-            else:
+            elif s < 16:
                 steps.append(s - 4)
+                vals.append(VPOOL[0])
+            else:
+                steps.append(s - 4)          # 12, 13: third interface
                 vals.append(VPOOL[0])
         message.DBusMessage._nextSerial = 1
         with notrace():
@@ -154,7 +162,7 @@ def build(family, p):
         obj = Obj('/o')
         handler.exportObject(obj)
         conn.sent[:] = []
-        store = {(IA, 'P'): {'y': 1, 'i': 1, 's': 'init', 'as': ['init']}[sig], (IB, 'P'): 0, (IA, 'Q'): 'qv'}
+        store = {(IA, 'P'): {'y': 1, 'i': 1, 's': 'init', 'as': ['init']}[sig], (IB, 'P'): 0, (IA, 'Q'): 'qv', (IC, 'AP'): 77}
 
         def remote(member, sigin, body):
             message.DBusMessage._nextSerial = 300
@@ -255,6 +263,16 @@ def build(family, p):
                 obj.pb = 40 + j
                 store[(IB, 'P')] = 40 + j
                 expect_signals([m for m in conn.sent[n0:] if m._messageType == 4], IB, 'P', 40 + j, True)
+            elif st == 12:                                # assign the property of the third interface
+                n0 = len(conn.sent)
+                obj.ap = 500 + j
+                store[(IC, 'AP')] = 500 + j
+                expect_signals([m for m in conn.sent[n0:] if m._messageType == 4], IC, 'AP', 500 + j, False)
+            elif st == 13:
+                r, sg = remote('Get', 'ss', [IC, 'AP'])
+                check(r._messageType == 2 and not sg, 'Get on the third interface must succeed')
+                pr = message.parseMessage(r.rawMessage, [])
+                check(pr.body == [store[(IC, 'AP')]], 'a property of another interface must keep its own value')
             else:                                         # Set with a wrong property name
                 r, sg = remote('Set', 'ssv', [IA, 'Nope', wrap(v)])
                 check(r._messageType == 3 and not sg, 'Set of an unknown property must fail')
